@@ -173,12 +173,16 @@ type scopeRun struct {
 	rootDead  bool
 	// histogram bounds oracle (C03/C11/C20 clause, independent of the model): every bucket a histogram
 	// delivers or shows in a snapshot is a bucket of the specification it was created with
-	histPairs map[string]map[string]bool // name|tags -> allowed "lo|hi" tokens ("any" when the scope default applies)
-	histUps   map[string]map[string]bool // name|tags -> allowed upper-bound tokens
-	histViol  string
-	sanViol   string
-	indepViol string
-	keyViol   string
+	histPairs   map[string]map[string]bool // name|tags -> allowed "lo|hi" tokens ("any" when the scope default applies)
+	histUps     map[string]map[string]bool // name|tags -> allowed upper-bound tokens
+	histViol    string
+	sanViol     string
+	indepViol   string
+	keyViol     string
+	missViol    string
+	rootRaw     map[string]string // the root's tags as the application spelled them
+	sameObjViol string
+	ctrNT       map[string]int // counters created through the program: name|tags token -> scope id
 }
 
 type scopeHow struct {
@@ -358,6 +362,16 @@ func (sr *scopeRun) genTags(maxN int) map[string]string {
 	return m
 }
 
+// checkSameObject: the library handed out, for (name, tags) = now, a metric object it had handed out before for
+// (name, tags) = was.  One object for two different reported identities means that what is recorded through one of
+// the handles is delivered under the other's name and tags ("every delivered value was recorded on that metric").
+func (sr *scopeRun) checkSameObject(kind string, id int, was, now string) {
+	if was == now || sr.sameObjViol != "" {
+		return
+	}
+	sr.sameObjViol = fmt.Sprintf("%s object %d was handed out for %s and is handed out again for %s", kind, id, was, now)
+}
+
 // noteCounter remembers, for the conservation oracle, which scope a counter came from and the name|tags
 // token under which the reporter will see it (full name = scope prefix, separator, sanitized name)
 func (sr *scopeRun) noteCounter(m tally.Counter, p int, name string) {
@@ -365,15 +379,20 @@ func (sr *scopeRun) noteCounter(m tally.Counter, p int, name string) {
 		return
 	}
 	id, _ := strconv.Atoi(sr.midOf(m, "counter"))
-	if _, ok := sr.mNT[id]; ok {
-		return
-	}
 	full := sr.san.Name(name)
 	if pfx := tally.VerifScopePrefix(sr.scopes[p]); pfx != "" {
 		full = pfx + sr.sepS + full
 	}
+	if old, ok := sr.mNT[id]; ok {
+		sr.checkSameObject("counter", id, old, hxs(full)+"|"+mapHex(tally.VerifScopeTags(sr.scopes[p])))
+		return
+	}
 	sr.mScope[id] = p
 	sr.mNT[id] = hxs(full) + "|" + mapHex(tally.VerifScopeTags(sr.scopes[p]))
+	if sr.ctrNT == nil {
+		sr.ctrNT = map[string]int{}
+	}
+	sr.ctrNT[sr.mNT[id]] = p
 }
 
 // noteGauge / noteUpd: the same bookkeeping for gauges ("the most recent delivery carries the latest value", C02,
@@ -383,12 +402,13 @@ func (sr *scopeRun) noteGauge(m tally.Gauge, p int, name string) {
 		return
 	}
 	id, _ := strconv.Atoi(sr.midOf(m, "gauge"))
-	if _, ok := sr.mNT[id]; ok {
-		return
-	}
 	full := sr.san.Name(name)
 	if pfx := tally.VerifScopePrefix(sr.scopes[p]); pfx != "" {
 		full = pfx + sr.sepS + full
+	}
+	if old, ok := sr.mNT[id]; ok {
+		sr.checkSameObject("gauge", id, old, hxs(full)+"|"+mapHex(tally.VerifScopeTags(sr.scopes[p])))
+		return
 	}
 	sr.mScope[id] = p
 	nt := hxs(full) + "|" + mapHex(tally.VerifScopeTags(sr.scopes[p]))
@@ -540,6 +560,20 @@ func (sr *scopeRun) checkSnap(snap tally.Snapshot) {
 				if n == -1 {
 					sr.indepViol = fmt.Sprintf("histogram %s: a count written into an EARLIER snapshot (-1) is visible in a later one", hs.Name())
 				}
+			}
+		}
+	}
+	// "one entry per metric": while nothing has been closed, every counter the program created (on the root or on
+	// any derived scope) has an entry, whichever scope of the tree the snapshot was taken through
+	if sr.missViol == "" && len(sr.closed) == 0 && !sr.rootDead {
+		have := map[string]bool{}
+		for _, cs := range snap.Counters() {
+			have[hxs(cs.Name())+"|"+mapHex(cs.Tags())] = true
+		}
+		for nt, p := range sr.ctrNT {
+			if !have[nt] {
+				sr.missViol = fmt.Sprintf("counter %s, created on scope %d, has no entry in the snapshot (%d counter entries)", nt, p, len(snap.Counters()))
+				break
 			}
 		}
 	}
@@ -751,6 +785,7 @@ func runScopeProgram(c *Ctx, r *Rng, mode string) {
 		}
 	}
 	rootTok := mapHex(rootTags)
+	sr.rootRaw = copyTags(rootTags)
 	opts := tally.ScopeOptions{Prefix: pfx, Separator: sep, Tags: rootTags, SanitizeOptions: sg.opts, OmitCardinalityMetrics: true}
 	defb := "-"
 	switch w := r.Intn(100); {
@@ -965,10 +1000,45 @@ func runScopeProgram(c *Ctx, r *Rng, mode string) {
 					sr.retagged = true
 				}
 			}
+			ownRoot := false
+			if r.Chance(12) {
+				// re-tag a scope with (a subset of) its OWN tags, spelled as the application spelled them when it created
+				// the scope (for the root: the tags given to the constructor): the identity is the scope's own, so the
+				// scope itself must come back - whichever shard that spelling hashes to
+				var own map[string]string
+				if p == 0 {
+					own = sr.rootRaw
+				} else if h, ok := sr.how[p]; ok && h.tags != nil {
+					own = h.tags
+				}
+				if len(own) > 0 {
+					ks := make([]string, 0, len(own))
+					for k := range own {
+						ks = append(ks, k)
+					}
+					sort.Strings(ks)
+					m = map[string]string{}
+					for _, k := range ks {
+						if r.Chance(70) {
+							m[k] = own[k]
+						}
+					}
+					if len(m) == 0 {
+						m[ks[0]] = own[ks[0]]
+					}
+					c.Cov.Hit("tagged.with-own-tags")
+					ownRoot = p == 0 && !rootClosed
+				}
+			}
 			keep := copyTags(m)
 			tok := mapHex(m)
 			sh := sr.shardFor(p, nil, m)
 			s := sr.scopes[p].Tagged(m)
+			if ownRoot && s != sr.scopes[0] {
+				// the root is reachable from every shard: whatever the spelling hashes to, the root's own identity is the root
+				c.Cov.Fail(Failure{Kind: "violated", Clause: "same-identity-same-scope", Signature: sr.sigBase + "root-identity-second-scope",
+					Line: strings.Join(sr.lines, " ; "), Reply: fmt.Sprintf("root.Tagged(%s) - (a subset of) the tags the root was constructed with - returned another scope than the root", tok), Detail: strings.Join(sr.lines, "\n")})
+			}
 			// the library must not have mutated the map; mutating it afterwards must change nothing
 			if mapHex(m) != tok {
 				c.Cov.Fail(Failure{Kind: "violated", Clause: "caller-map-not-mutated", Signature: sr.sigBase + "tagged-mutates-argument", Line: strings.Join(sr.lines, "\n")})
@@ -1208,6 +1278,14 @@ func runScopeProgram(c *Ctx, r *Rng, mode string) {
 			sr.say("close 0 => "+sr.events(), "close-root")
 		default: // snapshot
 			if tsc, ok := sr.root.(tally.TestScope); ok {
+				// "for a test scope and every scope derived from it": half of the snapshots are taken through a derived
+				// scope (subscope or tagged scope, open or closed) - the snapshot is that of the whole tree either way
+				if len(sr.scopes) > 1 && r.Bool() {
+					if d, ok := sr.scopes[r.Intn(len(sr.scopes))].(tally.TestScope); ok {
+						tsc = d
+						c.Cov.Hit("snapshot.through-derived-scope")
+					}
+				}
 				snap := tsc.Snapshot()
 				sr.checkSnap(snap)
 				sr.say("snap => "+snapTok(snap), "snapshot")
@@ -1321,6 +1399,14 @@ func runScopeProgram(c *Ctx, r *Rng, mode string) {
 	if sr.keyViol != "" {
 		c.Cov.Fail(Failure{Kind: "violated", Clause: "snapshot-keyed-by-name-and-tags", Signature: sr.sigBase + "snapshot-key",
 			Line: strings.Join(sr.lines, " ; "), Reply: sr.keyViol, Detail: strings.Join(sr.lines, "\n")})
+	}
+	if sr.sameObjViol != "" {
+		c.Cov.Fail(Failure{Kind: "violated", Clause: "one-object-one-identity", Signature: sr.sigBase + "metric-object-shared-by-two-identities",
+			Line: strings.Join(sr.lines, " ; "), Reply: sr.sameObjViol, Detail: strings.Join(sr.lines, "\n")})
+	}
+	if sr.missViol != "" {
+		c.Cov.Fail(Failure{Kind: "violated", Clause: "one-entry-per-metric", Signature: sr.sigBase + "snapshot-entry-missing",
+			Line: strings.Join(sr.lines, " ; "), Reply: sr.missViol, Detail: strings.Join(sr.lines, "\n")})
 	}
 	if sr.indepViol != "" {
 		c.Cov.Fail(Failure{Kind: "violated", Clause: "snapshot-independent", Signature: sr.sigBase + "snapshot-aliases-scope",
